@@ -252,6 +252,43 @@ def part_kinds(ctx, quick, recs, st):
     st["syntax_kind_cases"] = len(reqs)
 
 
+# ------------------------------------------------- (ii-b) line directives --
+# Small targets whose //line directives claim other (possibly huge) line numbers, in front of and inside the code
+# a well-formed change rewrites: the work done must depend on the size of the file, not on the numbers it mentions.
+LINE_PATCH = "@@\nvar x identifier\nvar a, b expression\n@@\n-x := foo(a, b)\n+x := 3\n"
+LINE_TARGETS = {
+    "inside-huge": "package a\n\nfunc f() {\n\tx := foo(1,\n//line x.go:300000000\n\t\t2)\n\t_ = x\n}\n",
+    "inside-small": "package a\n\nfunc f() {\n\tx := foo(1,\n//line x.go:100\n\t\t2)\n\t_ = x\n}\n",
+    "before-small": "package a\n\nfunc f() {\n//line y.go:100\n\tx := foo(1, 2)\n\t_ = x\n}\n",
+    "before-huge": "package a\n\n//line y.go:200000000\nfunc f() {\n\tx := foo(1, 2)\n\t_ = x\n}\n\n//line z.go:900000000\nfunc g() {\n\ty := foo(3,\n\t\t4)\n\t_ = y\n}\n",
+    "backwards": "package a\n\n//line y.go:500\nfunc f() {\n\tx := foo(1,\n//line y.go:2\n\t\t2)\n\t_ = x\n}\n",
+    "block-comment": "package a\n\nfunc f() {\n\tx := foo(1, /*line w.go:70000000:1*/ 2)\n\ty := foo(1,\n\t\t2)\n\t_, _ = x, y\n}\n",
+}
+
+
+def part_targets(ctx, quick, recs, st):
+    scs = []
+    for name, src in sorted(LINE_TARGETS.items()):
+        for mode in ([], ["--print-only"], ["--diff"]):
+            scs.append(dict(id="cli-line-%s%s" % (name, "".join(mode)), files=[dict(path="s.go", content=src), dict(path="p.patch", content=LINE_PATCH)],
+                            dirs=[], symlinks=[], args=mode + ["-p", "p.patch", "s.go"], stdin="", cwd="", strace=False, timeout_ms=30000,
+                            as_limit=3 << 30))
+    for sc, r in zip(scs, fr.run_cli(ctx, scs, "c08-line")):
+        if r["timeout"]:
+            o, d, s_ = "timeout", "0", "x"
+        elif r["exit"] == 0:
+            o, d, s_ = "ok", "0", "0"
+        elif r["exit"] == 1:
+            o, d, s_ = "error", "1" if r["stderr"].strip() else "0", "1"
+        elif "panic:" in r["stderr"] or "goroutine " in r["stderr"]:
+            o, d, s_ = "panic", "1", "x"
+        else:
+            o, d, s_ = "killed", "0", "x"
+        recs.append(dict(id=sc["id"], outcome=o, diag=d, status=s_, augs=[], pred=[],
+                         what=dict(patch=LINE_PATCH, src=sc["files"][0]["content"], args=sc["args"], exit=r["exit"], stderr=r["stderr"][:500])))
+    st["line_directive_cases"] = len(scs)
+
+
 # ---------------------------------------------------------------- (iii) fuzz --
 def seeds():
     out = []
@@ -425,11 +462,12 @@ def run(ctx):
     part_tokens(ctx, quick, recs, st)
     part_illtyped(ctx, quick, recs, st)
     part_kinds(ctx, quick, recs, st)
+    part_targets(ctx, quick, recs, st)
     part_fuzz(ctx, quick, recs, st)
     judge(ctx, recs, st)
     cov = dict(states=st["states"], transitions=st["transitions"], traces_validated_against_impl=len(recs), evaluations=len(recs),
                distinct_nontrivial=len({json.dumps(r["what"], sort_keys=True) for r in recs}), token_strings=st["token_strings"],
-               illtyped_cases=st["illtyped_cases"], syntax_kind_cases=st["syntax_kind_cases"], fuzz_cases=st["fuzz_cases"], cli_cases=st["cli_cases"], outcomes=st["outcomes"],
+               illtyped_cases=st["illtyped_cases"], syntax_kind_cases=st["syntax_kind_cases"], fuzz_cases=st["fuzz_cases"], line_directive_cases=st["line_directive_cases"], cli_cases=st["cli_cases"], outcomes=st["outcomes"],
                model_drift_cases=st["drift"], inputs_tried=len(recs), watchdog_timeouts_not_confirmed_alone=st.get("timeouts_not_confirmed", 0), exhaustive=False,
                samples=[{k: v for k, v in recs[0].items()}, {k: v for k, v in recs[-1].items()}],
                rule="(i) every token string of length <=%d over %d token classes: termination of the scanner model under weak fairness (TLC) and the real augmenter / patch.Parse on the concretised string on both sides of a patch; (ii) %d slot templates x %d binding kinds x expression / identifier metavariable, on the '+' and on the '-' side; one snippet per statement / expression / declaration form of go/ast as '+' side, context line and '-' side; (iii) exploration: every prefix of sampled seed patches and seeded token / byte / line mutations of the testdata and example patches crossed with their inputs, a sample also through the command; distinct = distinct inputs" % (4 if quick else 5, 12, len(SLOTS), len(BINDINGS)))
